@@ -282,7 +282,44 @@ var templates = []*template{
 		})
 		return outcome(app, []string{"t17", "push", "-f"}, func() string { return fmt.Sprintf("X=%q", *x) })
 	}},
+	{name: "T18 custom decorator value whose IsBoolFlag() answers true, used as a bare flag", run: func() string {
+		app := cli.App("t18", "")
+		app.ErrorHandling = flag.ContinueOnError
+		w := &c20Wrap{flagLike: true}
+		app.Var(cli.VarOpt{Name: "f force", Value: w})
+		x := app.StringArg("X", "", "")
+		return outcome(app, []string{"t18", "-f", "junk"}, func() string { return fmt.Sprintf("f=%q X=%q", w.s, *x) })
+	}},
+	{name: "T19 a value of the same Go type whose IsBoolFlag() answers false, used with a value", run: func() string {
+		app := cli.App("t19", "")
+		app.ErrorHandling = flag.ContinueOnError
+		w := &c20Wrap{flagLike: false}
+		app.Var(cli.VarOpt{Name: "o out", Value: w})
+		x := app.StringsArg("SRC", nil, "")
+		return outcome(app, []string{"t19", "-o", "a.out", "main.c"}, func() string { return fmt.Sprintf("o=%q SRC=%q", w.s, *x) })
+	}},
+	{name: "T20 accepted invocation with hooks under PanicOnError", run: func() string {
+		app := cli.App("t20", "")
+		app.ErrorHandling = flag.PanicOnError
+		app.Spec = "[-a] X"
+		a := app.BoolOpt("a all", false, "")
+		x := app.StringArg("X", "", "")
+		n := 0
+		app.Before = func() { n++ }
+		app.After = func() { n++ }
+		return outcome(app, []string{"t20", "-a", "v"}, func() string { return fmt.Sprintf("a=%v X=%q hooks=%d", *a, *x, n) })
+	}},
 }
+
+// c20Wrap: one Go type, IsBoolFlag() decided per value (a decorator forwarding the capability of what it wraps)
+type c20Wrap struct {
+	s        string
+	flagLike bool
+}
+
+func (w *c20Wrap) Set(s string) error { w.s = s; return nil }
+func (w *c20Wrap) String() string     { return w.s }
+func (w *c20Wrap) IsBoolFlag() bool   { return w.flagLike }
 
 // runTemplate sets the template's environment, builds and runs it in its own goroutine (an Exit ends it),
 // restores the environment. The env change "after declaration" of T2 is covered by restoring BEFORE Run
